@@ -1,7 +1,8 @@
 (* C07, part 4: the undefined-variable diagnostics (types 2 and 3).
    The third pass of Model/Usage.v (findNameStr / findGlobalVar on every read the traversal binds to no local) reports
    exactly the list the reference `spec_undefined` of Spec/LuaUsage.v demands, under the boolean guards in_fragment,
-   pos_clean, flags_ok (reads at the same Loc carry the same idiom flags) and not later_elsewhere. *)
+   pos_clean, flags_ok (reads at the same Loc carry the same idiom flags).  The former guard `not later_elsewhere` is
+   gone since fixes/C07-later-elsewhere.diff (the third pass asks the other files before it reports a load-order error). *)
 From Coq Require Import List NArith ZArith Bool Lia.
 From LH Require Import Base.Bytes Model.Lexer Model.Ast Spec.LuaUsage Model.Usage Proofs.TraverseBindDefs
   Proofs.UsageBindRun Proofs.UsageBindSim Proofs.UsageBind.
@@ -18,12 +19,12 @@ Section Undef.
   Fixpoint diag3_run (acts : list action) (st : stack) (sofar : list name) {struct acts} : list diag :=
     match acts with
     | [] => []
-    | a :: r => step_diag3 true c own all a st sofar
+    | a :: r => step_diag3 true c own all others a st sofar
                 ++ diag3_run r (step_stack true a st) (step_sofar true a st sofar)
     end.
 
   Lemma run3_fold : forall acts s,
-    s3_diags (fold_left (step3 true c own all) acts s) = s3_diags s ++ diag3_run acts (s3_stack s) (s3_sofar s).
+    s3_diags (fold_left (step3 true c own all others) acts s) = s3_diags s ++ diag3_run acts (s3_stack s) (s3_sofar s).
   Proof.
     induction acts as [|a r IH]; intros s.
     - cbn. rewrite app_nil_r. reflexivity.
@@ -45,41 +46,40 @@ Section Undef.
 
   Lemma diag3_scan : forall acts st sofar,
     forallb flag_ok acts = true ->
-    le_scan c own_names others sofar (log_run acts st) = false ->
     diag3_run acts st sofar = undef_scan c others suppf circ_of_own own_names sofar (log_run acts st).
   Proof.
-    induction acts as [|a r IH]; intros st sofar Hfl Hle; [reflexivity|].
+    induction acts as [|a r IH]; intros st sofar Hfl; [reflexivity|].
     cbn [forallb] in Hfl. apply andb_true_iff in Hfl. destruct Hfl as [Hfa Hfr].
     cbn [diag3_run log_run]. destruct a as [| |v|n l flv su ci|n l flv slv rhs].
-    - cbn [step_diag3 step_log step_sofar app]. cbn [log_run step_log app] in Hle. apply IH; assumption.
-    - cbn [step_diag3 step_log step_sofar app]. cbn [log_run step_log app] in Hle. apply IH; assumption.
-    - cbn [step_diag3 step_log step_sofar app]. cbn [log_run step_log app] in Hle. apply IH; assumption.
+    - cbn [step_diag3 step_log step_sofar app]. apply IH; assumption.
+    - cbn [step_diag3 step_log step_sofar app]. apply IH; assumption.
+    - cbn [step_diag3 step_log step_sofar app]. apply IH; assumption.
     - (* ARead *)
-      cbn [log_run step_log app] in Hle. cbn [step_diag3 step_log step_sofar app].
+      cbn [step_diag3 step_log step_sofar app].
       cbn [flag_ok] in Hfa. apply andb_true_iff in Hfa. destruct Hfa as [Hsu Hci].
       apply eqb_prop in Hsu. apply eqb_prop in Hci.
       destruct (find_st (hit true n l) st) as [v|] eqn:Ef; cbn [binding_of] in *.
-      + cbn [undef_scan le_scan] in *. apply IH; assumption.
-      + cbn [undef_scan le_scan] in *. apply orb_false_iff in Hle. destruct Hle as [Hle1 Hle2].
-        rewrite (IH _ _ Hfr Hle2). f_equal.
+      + cbn [undef_scan] in *. apply IH; assumption.
+      + cbn [undef_scan] in *.
+        rewrite (IH _ _ Hfr). f_equal.
         rewrite <- Hsu. unfold circ_of_own. rewrite <- Hci.
         pose proof (Hown n) as Ho. pose proof (Hall n) as Ha.
         destruct (name_mem n (c_ignored c)) eqn:Ei; [reflexivity|]. cbn [orb].
         destruct su; [reflexivity|]. cbn [orb].
         destruct (name_mem n (c_luain c)) eqn:El; [reflexivity|].
-        cbn [orb negb] in Hle1. rewrite andb_true_r in Hle1.
         destruct (flv =? 0) eqn:Eflv.
         * destruct (name_mem n sofar) eqn:Es; [reflexivity|].
-          cbn [negb andb] in Hle1.
           destruct (ghead n own) as [[[f0 s0] hl]|] eqn:Eg.
-          -- cbn [negb] in Ho. rewrite Ho in *. cbn [andb] in Hle1. rewrite Hle1. cbn [orb]. reflexivity.
+          -- cbn [negb] in Ho. rewrite Ho.
+             destruct (ci && (sl l =? sl hl)%Z); [rewrite orb_true_r; reflexivity|]. rewrite orb_false_r.
+             destruct (name_mem n others); reflexivity.
           -- cbn [negb] in Ho. rewrite Ho. rewrite (Ha eq_refl). reflexivity.
         * destruct (ghead n own) as [[[f0 s0] hl]|] eqn:Eg.
           -- cbn [negb] in Ho. rewrite Ho. reflexivity.
           -- cbn [negb] in Ho. rewrite Ho, (Ha eq_refl). reflexivity.
     - (* AWrite *)
-      cbn [log_run step_log app] in Hle. cbn [step_diag3 step_log step_sofar app].
-      destruct (find_st (hit true n l) st) as [v|] eqn:Ef; cbn [binding_of undef_scan le_scan] in *;
+      cbn [step_diag3 step_log step_sofar app].
+      destruct (find_st (hit true n l) st) as [v|] eqn:Ef; cbn [binding_of undef_scan] in *;
         apply IH; assumption.
   Qed.
 End Undef.
@@ -132,12 +132,11 @@ Definition flags_ok (b : block) : bool :=
 
 Theorem usage_undefined_agree c b all others :
   in_fragment b = true -> pos_clean b = true -> flags_ok b = true ->
-  later_elsewhere c b others = false ->
   (forall n, name_mem n all = name_mem n (gnames (s1_gmap (first_pass c b))) || name_mem n others) ->
-  s3_diags (run3 true c (s1_gmap (first_pass c b)) all (trace b))
+  s3_diags (run3 true c (s1_gmap (first_pass c b)) all others (trace b))
   = spec_undefined c others (fun l => loc_mem l (supp_locs b)) (circ_ok b (s1_gmap (first_pass c b))) b.
 Proof.
-  intros Hf Hp Hfl Hle Hall.
+  intros Hf Hp Hfl Hall.
   pose proof (usage_bindings_agree c b Hf Hp) as Hlog.
   unfold first_pass, run1 in Hlog. destruct (run1_fold c (trace b) (mkSt1 [] [] [] [])) as [_ Hl].
   rewrite Hl in Hlog. cbn [s1_log s1_stack app] in Hlog.
@@ -153,5 +152,4 @@ Proof.
   - reflexivity.
   - intros n Hn. rewrite Hall. unfold gnames. rewrite ghead_names, Hn. reflexivity.
   - exact Hfl.
-  - unfold later_elsewhere in Hle. rewrite <- Hlog in Hle. exact Hle.
 Qed.
